@@ -145,7 +145,7 @@ class Strikethrough(SpanToken):
     Strikethrough token. ("~~some text~~")
     This is an inline token. Its children are inline (span) tokens.
     """
-    pattern = re.compile(r"(?<!\\)(?:\\\\)*~~(.+?)~~", re.DOTALL)
+    pattern = re.compile(r"(?<!\\)(?:\\\\)*~~((?:\\.|[^\\])+?)~~", re.DOTALL)
 
 
 class Image(SpanToken):
